@@ -387,13 +387,40 @@ func (e *Enc) appendCall(cur *cursor, v ssa.Value, c *ssa.CallCommon, pos token.
 	r := e.define("app", "Slice", fmt.Sprintf("(ite %s (mk_slice (sl_base %s) (sl_off %s) (+ (sl_len %s) %d) (sl_cap %s)) (mk_slice %s 0 (+ (sl_len %s) %d) %s))", fits, s, s, s, n, s, nb, s, n, ncap))
 	leaves := map[string]string{}
 	e.m.cellLeaves(el, leaves)
+	leafPaths := map[string][][]int{}
+	e.m.structLeafPaths(el, nil, leafPaths)
 	// copy old contents into the new array (only meaningful when !fits): quantified per leaf array
 	for _, ln := range sortedKeys(leaves) {
 		arr := e.heapGet(st, ln, leaves[ln])
 		na := e.fresh(ln, "(Array Addr "+leaves[ln]+")")
 		// na agrees with arr everywhere except inside the new backing array, where it holds the copy
-		e.assume(cur.guard, fmt.Sprintf("(forall ((a Addr)) (! (=> (not (and ((_ is Elem) a) (= (elem_a a) %s))) (= (select %s a) (select %s a))) :pattern ((select %s a))))", nb, na, arr, na))
-		e.assume(cur.guard, fmt.Sprintf("(forall ((k Int)) (! (=> (and (<= 0 k) (< k (sl_len %s))) (= (select %s (Elem %s k)) (select %s (selem (sl_base %s) (sl_off %s) k)))) :pattern ((select %s (Elem %s k)))))", s, na, nb, arr, s, s, na, nb))
+		// (fields of struct-typed fields of an element live under (Fld ... i) of the element's address)
+		paths := leafPaths[ln]
+		if len(paths) == 0 {
+			paths = [][]int{nil}
+		}
+		nested := false
+		for _, p := range paths {
+			if len(p) > 0 {
+				nested = true
+			}
+		}
+		if nested {
+			e.assume(cur.guard, fmt.Sprintf("(forall ((a Addr)) (! (=> (not (= (rootid a) (rootid %s))) (= (select %s a) (select %s a))) :pattern ((select %s a))))", nb, na, arr, na))
+		} else {
+			e.assume(cur.guard, fmt.Sprintf("(forall ((a Addr)) (! (=> (not (and ((_ is Elem) a) (= (elem_a a) %s))) (= (select %s a) (select %s a))) :pattern ((select %s a))))", nb, na, arr, na))
+		}
+		for _, p := range paths {
+			wrap := func(a string) string {
+				for _, i := range p {
+					a = fmt.Sprintf("(Fld %s %d)", a, i)
+				}
+				return a
+			}
+			dst := wrap(fmt.Sprintf("(Elem %s k)", nb))
+			src := wrap(fmt.Sprintf("(selem (sl_base %s) (sl_off %s) k)", s, s))
+			e.assume(cur.guard, fmt.Sprintf("(forall ((k Int)) (! (=> (and (<= 0 k) (< k (sl_len %s))) (= (select %s %s) (select %s %s))) :pattern ((select %s %s))))", s, na, dst, arr, src, na, dst))
+		}
 		st.heap[ln] = e.define(ln, "(Array Addr "+leaves[ln]+")", fmt.Sprintf("(ite %s %s %s)", fits, arr, na))
 	}
 	for i, x := range elems {
